@@ -3,6 +3,7 @@ package gosym
 import (
 	"fmt"
 	"go/token"
+	"go/types"
 	"strings"
 
 	"golang.org/x/tools/go/ssa"
@@ -197,13 +198,19 @@ func (in *Interp) symStrSlice(b *SymStr, x *ssa.Slice, fr *frame) Value {
 
 // taggedString returns the symbolic string attached to a byte buffer, if any.
 func (in *Interp) taggedString(s Slice) Value {
+	if s.Arr != nil {
+		if ss, ok := s.Arr.V.(*SymStr); ok && s.Len < 0 {
+			return ss
+		}
+	}
 	if in.BufString != nil {
 		return in.BufString(in, s)
 	}
 	return nil
 }
 
+// bytesOfSym: the bytes of a symbolic string are an opaque buffer that can
+// only be converted back to the string (length and elements are unmodelled).
 func (in *Interp) bytesOfSym(x *SymStr) Value {
-	in.unmodelled("[]byte(symbolic string)")
-	return nil
+	return Slice{Arr: &Cell{T: types.NewArray(types.Typ[types.Uint8], 0), V: x, Name: "symbytes"}, Len: -1, Cap: -1}
 }
